@@ -148,6 +148,10 @@ class FakeS3Client:
                 if lo >= len(data) or lo > hi:
                     raise client_error("InvalidRange", "GetObject", 416)
                 data = data[lo:hi + 1]
+            sim = cur_sim()
+            if sim is not None and self.store.keep_history and Key.endswith(".lock"):
+                sim.extra.setdefault("lock_reads", []).append(
+                    (sim.gstep + 0, cur_actor().name if cur_actor() else "-", data.decode("utf-8", "replace")))
             return {"Body": Body(data), "ETag": o.etag, "LastModified": _stamp(o.mtime),
                     "ContentLength": len(data)}
         return self._call("get", Key, do, "GetObject")
@@ -187,6 +191,12 @@ class FakeS3Client:
             t = sim.true_time() if sim else 0.0
             o = Obj(body, t, a.name if a else "-")
             b[Key] = o
+            if sim is not None and self.store.keep_history and Key.endswith(".lock"):
+                sim.extra.setdefault("lock_writes", []).append(
+                    (sim.gstep + 0, a.name if a else "-", body.decode("utf-8", "replace"),
+                     "create" if IfNoneMatch else ("cas" if IfMatch else "plain")))
+                if cur is not None and cur.body != body:
+                    sim.probe("lock_takeover")
             return {"ETag": o.etag}
         return self._call("put", Key, do, "PutObject")
 
